@@ -523,7 +523,14 @@ class C18(Check):
         "evo_config generate <argv from the real parsers' typed options> "
         "[-o file] followed by 'evo_X ... -c file' vs 'evo_X ... argv', "
         "'evo_X ... cli -c file' (priority, per-run SETTINGS override), "
-        "in-process writes to the locked SETTINGS. After every operation the "
+        "in-process writes to the locked SETTINGS. The '-c' process follows "
+        "the entry-point order (parser, import of evo.main_<app>, parse_args, "
+        "merge_config, then the imports run() performs): matplotlib rc after "
+        "importing evo.tools.plot, the file written by the table writer, and "
+        "a fingerprint of everything the loaded evo modules froze at import "
+        "time (argument defaults, plain globals) are compared with the "
+        "overridden values / with a second process whose stored settings "
+        "already are the overridden ones. After every operation the "
         "decoded settings.json and config files are compared type-aware with "
         "a dict model. A history is non-trivial if at least one operation "
         "changed durable state or compared two parsed namespaces; distinct = "
@@ -543,7 +550,13 @@ class C18(Check):
             "evo/tools/settings_template.py", "evo/tools/user.py",
             "evo/tools/log.py", "evo/main_config.py", "evo/entry_points.py",
             "evo/main_ape_parser.py", "evo/main_rpe_parser.py",
-            "evo/main_traj_parser.py", "argparse, json, CPython io layers"
+            "evo/main_traj_parser.py", "evo/main_res_parser.py",
+            "module bodies of evo/main_{ape,rpe,traj,res}.py, "
+            "evo/common_ape_rpe.py, evo/core/*.py, evo/tools/{plot,"
+            "pandas_bridge,file_interface,tf_id}.py (imported per process, "
+            "run() itself is not executed)",
+            "pandas_bridge.save_df_as_table (csv/json writers of pandas on "
+            "SimFS)", "argparse, json, CPython io layers"
         ],
         "stub": [
             "disk (SimFS)", "process (thread + private evo module table)",
